@@ -64,3 +64,19 @@ pub fn btree_index_g2<V: Copy>(m: &BTreeMap<usize, V>, k: &usize) -> (r: V)
 // ark_std::log2(x) = ceil(log2 x) for x >= 1 (and 0 for x = 0)
 #[verifier::external_body] pub fn log2_ceil(x: usize) -> (r: u32)
     ensures r <= 64, x <= p2(r as nat), x > 1 ==> p2((r - 1) as nat) < x, x <= 1 ==> r == 0 { unimplemented!() }
+// `*m.entry(k).or_insert(G1::zero()) += &v`  (BTreeMap entry API): m[k] := (m[k] if present else 0) + v
+#[verifier::external_body]
+pub fn btree_entry_add_g1(m: &mut BTreeMap<Option<usize>, G1>, k: Option<usize>, v: &G1)
+    ensures final(m)@.dom() == old(m)@.dom().insert(k),
+            final(m)@[k]@ == f_add(if old(m)@.dom().contains(k) { old(m)@[k]@ } else { f_zero() }, v@),
+            forall|k2: Option<usize>| k2 != k && old(m)@.dom().contains(k2) ==> final(m)@[k2] == old(m)@[k2],
+{ unimplemented!() }
+// `m.into_iter()` of a BTreeMap: its (key, value) pairs, each key once (in key order)
+pub uninterp spec fn btree_entries<V>(m: Map<Option<usize>, V>) -> Seq<(Option<usize>, V)>;
+#[verifier::external_body]
+pub fn btree_into_vec_g1(m: BTreeMap<Option<usize>, G1>) -> (r: Vec<(Option<usize>, G1)>)
+    ensures r@ == btree_entries(m@),
+            forall|i: int| 0 <= i < r@.len() ==> m@.dom().contains((#[trigger] r@[i]).0) && r@[i].1 == m@[r@[i].0],
+            forall|i: int, j: int| 0 <= i < j < r@.len() ==> r@[i].0 != r@[j].0,
+            forall|k: Option<usize>| m@.dom().contains(k) ==> exists|i: int| 0 <= i < r@.len() && (#[trigger] r@[i]).0 == k,
+{ unimplemented!() }
